@@ -204,8 +204,18 @@ def _thetas_and_dm(case, screen, n):
     return holder, dm
 
 
-def run_op(case, seed):
-    """Run the operation with a generator / --seed derived from `seed`; returns a comparable canonical output."""
+def _obj(cache, key, make):
+    """operator / scorer / policy objects: fresh per call, or shared between calls when a cache is handed in"""
+    if cache is None:
+        return make()
+    if key not in cache:
+        cache[key] = make()
+    return cache[key]
+
+
+def run_op(case, seed, cache=None):
+    """Run the operation with a generator / --seed derived from `seed`; returns a comparable canonical output.
+    With `cache`, the configuration objects (generator, smoother, scorer, policy) are reused between calls."""
     from batchie import retrospective as R
     from batchie import sampling
     from batchie.core import ThetaHolder
@@ -222,10 +232,13 @@ def run_op(case, seed):
     paths = []
     try:
         if kind in ("gen", "smooth"):
-            return canon_screen(retro.apply_operator(case["params"], screen, np.random.default_rng(seed)))
+            opobj = _obj(cache, "op", lambda: retro.build_operator(case["params"], [str(x) for x in screen.plate_names]))
+            f_ = opobj.generate_plates if kind == "gen" else opobj.smooth_plates
+            return canon_screen(f_(screen, np.random.default_rng(seed)))
         if op == "cover":
             full = S.build_screen(dict(sc, observed=sorted({r["p"] for r in sc["rows"]})), treatment_mapping=tm, sample_mapping=sm)
-            return canon_screen(R.SparseCoverPlateGenerator(reveal_single_treatment_experiments=case["flag"]).generate_and_unmask_initial_plate(full, np.random.default_rng(seed)))
+            cov = _obj(cache, "cover", lambda: R.SparseCoverPlateGenerator(reveal_single_treatment_experiments=case["flag"]))
+            return canon_screen(cov.generate_and_unmask_initial_plate(full, np.random.default_rng(seed)))
         if kind == "holdout":
             f = R.create_plate_balanced_holdout_set_among_masked_plates if op.endswith("plate_balanced") else R.create_random_holdout
             a, b = f(screen, case["fraction"], np.random.default_rng(seed))
@@ -235,18 +248,18 @@ def run_op(case, seed):
             holder, dm = _thetas_and_dm(case, screen, n)
             plates = {int(p.plate_id): p for p in screen.plates if not bool(np.all(p.observation_mask))}
             if op == "scorer:Random":
-                return sorted((int(k), float(v)) for k, v in RandomScorer().score(plates=plates, distance_matrix=dm, samples=holder, rng=np.random.default_rng(seed), progress_bar=False).items())
+                return sorted((int(k), float(v)) for k, v in _obj(cache, "rand", RandomScorer).score(plates=plates, distance_matrix=dm, samples=holder, rng=np.random.default_rng(seed), progress_bar=False).items())
             if op == "dbal:subsampled":
                 r = np.random.default_rng(case["seed"] % 997)
                 preds = r.normal(size=(3, n, 4))
                 var = np.ones((3, n, 4))
                 return [float(x).hex() for x in gd.dbal_fast_gauss_scoring_vectorized(preds, var, dm.to_dense(), np.random.default_rng(seed), max_combos=5)]
             if op == "scorer:GaussianDBAL":
-                return sorted((int(k), float(v).hex()) for k, v in gd.GaussianDBALScorer(max_chunk=2, max_triples=4).score(plates=plates, distance_matrix=dm, samples=holder, rng=np.random.default_rng(seed), progress_bar=False).items())
+                return sorted((int(k), float(v).hex()) for k, v in _obj(cache, "dbal", lambda: gd.GaussianDBALScorer(max_chunk=2, max_triples=4)).score(plates=plates, distance_matrix=dm, samples=holder, rng=np.random.default_rng(seed), progress_bar=False).items())
             if op == "score_chunk":
                 out = []
                 for c in range(2):
-                    h = score_chunk(scorer=gd.GaussianDBALScorer(max_triples=4), thetas=holder, screen=screen, distance_matrix=dm, rng=np.random.default_rng(seed + c), n_chunks=2, chunk_index=c)
+                    h = score_chunk(scorer=_obj(cache, "dbal_chunk", lambda: gd.GaussianDBALScorer(max_triples=4)), thetas=holder, screen=screen, distance_matrix=dm, rng=np.random.default_rng(seed + c), n_chunks=2, chunk_index=c)
                     out.append(sorted((int(p), float(s).hex()) for p, s in zip(h.plate_ids[: h.current_index], h.scores[: h.current_index])))
                 return out
             from batchie.policies.k_per_sample import KPerSamplePlatePolicy
@@ -254,7 +267,7 @@ def run_op(case, seed):
             sh = ChunkedScoresHolder(len(plates))
             for pid in sorted(plates):
                 sh.add_score(pid, float((pid * 7919) % 13))
-            p = select_next_plate(scores=sh, screen=screen, policy=KPerSamplePlatePolicy(case["k"]), batch_plate_ids=[], rng=np.random.default_rng(seed))
+            p = select_next_plate(scores=sh, screen=screen, policy=_obj(cache, "policy", lambda: KPerSamplePlatePolicy(case["k"])), batch_plate_ids=[], rng=np.random.default_rng(seed))
             return None if p is None else int(p.plate_id)
         if kind == "sample":
             from batchie.models.sparse_combo import SparseDrugCombo
@@ -370,6 +383,15 @@ def check_case(case):
             require(outs[0] == outs[1], op + ".raises_consistently", lambda: "%s: %r under one ambient state, %r under the other" % (op, outs[0], outs[1]))
             return {"nontrivial": False, "labels": [op, "raised:%s:%s" % (op, outs[0][1])]}
         require(json.dumps(outs[0][1], sort_keys=True, default=str) == json.dumps(outs[1][1], sort_keys=True, default=str), op + ".depends_on_global_state", lambda: "%s: two runs with identical inputs and an identically seeded generator (seed %d) differ when numpy's global generator is in another state: %s vs %s" % (op, case["seed"], _short(outs[0][1]), _short(outs[1][1])))
+        # the configuration objects (generator / smoother / scorer / policy) are reusable: seed, other seed, seed again on ONE object
+        if op.split(":")[0] in ("gen", "smooth", "cover", "scorer", "score_chunk", "select"):
+            shared = {}
+            seq = []
+            for sd in (case["seed"], case["seed"] + 1, case["seed"]):
+                with np.errstate(all="ignore"):
+                    seq.append(json.dumps(run_op(case, sd, cache=shared), sort_keys=True, default=str))
+            fresh = json.dumps(outs[0][1], sort_keys=True, default=str)
+            require(seq[0] == fresh and seq[2] == fresh, op + ".depends_on_call_history", lambda: "%s: on a reused %s object the result for seed %d is %s the first time and %s after a call with another seed; a fresh object gives %s" % (op, op.split(":")[0], case["seed"], seq[0][:160], seq[2][:160], fresh[:160]))
         # third run, other seed: did the operation consume randomness at all?
         _ambient(case["ambient"][0], case["ambient_draws"][0])
         try:
